@@ -140,10 +140,37 @@ func main() {
 		scale = 3
 	}
 	if *tier == "quick" {
-		per := (*runs + workers - 1) / workers
-		if err := wave(agg, base, per, workers, 300*time.Second); err != nil {
-			fmt.Fprintln(os.Stderr, "simdrive:", err)
-			os.Exit(2)
+		// the runs of the quick tier in waves of a tenth each, under a wall
+		// budget: a tree on which runs are expensive (library goroutines that
+		// block in channels cost a detection round each) gets fewer runs, not a
+		// watchdog exit
+		quickBudget := 150 * time.Second
+		if v := os.Getenv("VERIF_QUICK_BUDGET_S"); v != "" {
+			if n, err := strconv.Atoi(v); err == nil && n > 0 {
+				quickBudget = time.Duration(n) * time.Second
+			}
+		}
+		total := *runs
+		per := (total/10 + workers - 1) / workers
+		if per < 10 {
+			per = 10
+		}
+		next := base
+		done := 0
+		for done < total {
+			if rem := total - done; per*workers > rem {
+				per = (rem + workers - 1) / workers
+			}
+			if err := wave(agg, next, per, workers, 300*time.Second); err != nil {
+				fmt.Fprintln(os.Stderr, "simdrive:", err)
+				os.Exit(2)
+			}
+			next += uint64(per * workers)
+			done += per * workers
+			if time.Since(start) > quickBudget && done < total {
+				fmt.Printf("simdrive: quick tier stopped after %d of %d runs: wall budget of %v used up (runs are expensive on this tree)\n", done, total, quickBudget)
+				break
+			}
 		}
 	} else {
 		deadline := start.Add(time.Duration(*budget) * time.Second)
